@@ -184,6 +184,8 @@ package ysgo
 //@   requires dr.hostOK() && dr.wfStack() && statement != nil
 //@   requires forall i int :: {statement.Clauses[i]} 0 <= i && i < len(statement.Clauses) ==> statement.Clauses[i] != nil && wfExpr(statement.Clauses[i].Condition)
 //@   modifies World, *(&dr.statementsToRun), elems(*(&dr.statementsToRun))
+//@   ensures "queues": old(dr.wfQueues()) && (forall i int :: {statement.Clauses[i]} 0 <= i && i < len(statement.Clauses) ==> wfStmts(statement.Clauses[i].Statements)) ==> dr.wfQueues()
+//@   ensures "buffer-same-or-fresh": dr.stackBufOK()
 //@   ensures "first-true-clause": (err == nil) == FirstTrueFrom(statement, 0, old(World)).cok &&
 //@           (err == nil ==> World == FirstTrueFrom(statement, 0, old(World)).cw &&
 //@               dr.K() == (FirstTrueFrom(statement, 0, old(World)).idx >= 0
@@ -330,4 +332,233 @@ package ysgo
 //@               (forall n string :: {n in dr.variableSnapshot} (n in dr.variableSnapshot) == (store(World, n) != VNone)) &&
 //@               (forall n string :: {dr.variableSnapshot[n]} n in dr.variableSnapshot ==> absvalOf(dr.variableSnapshot[n]) == store(World, n))
 //@   ensures "wf": dr.wfStack()
+//@   ensures "queues": old(dr.wfQueues()) && wfDialogue(dr.dialogue) ==> dr.wfQueues()
+//@   ensures "buffer-same-or-fresh": dr.stackBufOK()
 //@   ensures "no-writes": nwrites(World) == nwrites(old(World)) && ndispatch(World) == ndispatch(old(World))
+//
+// ---- runner.go: Next refines the sequential semantics Step / Run of /verif/spec/yarn.spec (C01, C12) ---------
+//
+//@ pure func (dr *DialogueRunner) waiting() *tree.ShortcutOptionStatement {
+//@     return dr.lastStatement != nil ? dr.lastStatement.ShortcutOptionStatement : nil }
+//@ pred (dr *DialogueRunner) wf() {
+//@     dr.hostOK() && dr.functionStorer.coupled() && dr.commandStorer.coupled() && dr.visitedNodes != nil &&
+//@     wfDialogue(dr.dialogue) && dr.wfStack() && dr.wfQueues() &&
+//@     (dr.lastStatement != nil ==> wfStmt(dr.lastStatement)) }
+//@ pred (dr *DialogueRunner) stackBufOK() {
+//@     arrayOf(*(&dr.statementsToRun)) == old(arrayOf(*(&dr.statementsToRun))) || fresh(*(&dr.statementsToRun)) }
+//@ pred (dr *DialogueRunner) wfQueues() {
+//@     forall i int :: {dr.stk()[i]} 0 <= i && i < len(dr.stk()) ==> wfStmts(dr.stk()[i].statements) }
+// options 1-to-1 with the group, in order: Disabled as prescribed, tags of the option, a parse of its rendered text (C04)
+//@ pred (dr *DialogueRunner) optionsAre(opts []DialogueOption, o Out) {
+//@     len(opts) == len(o.odis) && len(opts) == len(o.osrcs) && len(opts) <= len(o.ogroup.Options) &&
+//@     (forall i int :: {opts[i]} 0 <= i && i < len(opts) ==>
+//@         opts[i].Disabled == o.odis[i] && opts[i].Line != nil && opts[i].Line.Tags == o.ogroup.Options[i].LineStatement.Tags &&
+//@         (exists pr *markup.ParseResult :: {pr.src} pr != nil && pr.src == o.osrcs[i] && opts[i].Line.ParseResult == *pr)) }
+//@ pure func (dr *DialogueRunner) optsRes(g *tree.ShortcutOptionStatement, O ORes, k seq[*tree.Statement]) SRes {
+//@     return !O.ook ? errRes(k[1:], dr.currentNode, dom(dr.visitedNodes), mapval(dr.visitedNodes), O.ow)
+//@          : SRes(OOpts(dr.currentNode, g, O.srcs, O.dis), k[1:], g, dr.currentNode, dom(dr.visitedNodes), mapval(dr.visitedNodes), nil, O.ow) }
+//@ pure func (dr *DialogueRunner) kc(choice int) seq[*tree.Statement] {
+//@     return old(dr.waiting()) != nil ? seq(old(dr.waiting()).Options[choice].Statements) ++ old(dr.K()) : old(dr.K()) }
+//@ pure func (dr *DialogueRunner) step(choice int) SRes {
+//@     return Step(dr.dialogue, choice, dr.K(), dr.waiting(), dr.currentNode, dom(dr.visitedNodes), mapval(dr.visitedNodes), dr.commandErrChan, World) }
+//@ pred (dr *DialogueRunner) stateIs(s SRes) {
+//@     dr.K() == s.k && dr.waiting() == s.wait && dr.currentNode == s.node &&
+//@     dom(dr.visitedNodes) == s.vdom && mapval(dr.visitedNodes) == s.vval && dr.commandErrChan == s.pend }
+//
+//@ func (dr *DialogueRunner) Next(choice int) (el *DialogueElement, err error)
+//@   requires dr.wf()
+//@   requires "choice-in-range": dr.waiting() != nil && (dr.commandErrChan == nil || (ready(dr.commandErrChan) && recv(dr.commandErrChan) == nil)) ==>
+//@                               0 <= choice && choice < len(dr.waiting().Options)
+//@   modifies dr.lastStatement, dr.commandErrChan, dr.currentNode, dr.variableSnapshot, *(&dr.statementsToRun), elems(*(&dr.statementsToRun)),
+//@            all(statementQueue.pointer), mapcontent(dr.visitedNodes), World, fields(&dr.lineParser)
+//@   ensures "wf": dr.wf()
+//@   ensures "refines-Run/outcome":
+//@           (old(dr.step(choice)).out == OEnd     ==> el == nil && err == nil) &&
+//@           (old(dr.step(choice)).out == OWaiting ==> el == nil && err == iface(ErrWaitingForCommandCompletion, errWaitingForCommandCompletion)) &&
+//@           (old(dr.step(choice)).out == OError   ==> el == nil && err != nil && err != iface(ErrWaitingForCommandCompletion, errWaitingForCommandCompletion)) &&
+//@           (isOLine(old(dr.step(choice)).out) ==> err == nil && el != nil && el.Node == old(dr.step(choice)).out.lnode && len(el.Options) == 0 &&
+//@               el.Line != nil && el.Line.Tags == old(dr.step(choice)).out.ltags &&
+//@               (exists pr *markup.ParseResult :: {pr.src} pr != nil && pr.src == old(dr.step(choice)).out.lsrc && el.Line.ParseResult == *pr)) &&
+//@           (isOOpts(old(dr.step(choice)).out) ==> err == nil && el != nil && el.Node == old(dr.step(choice)).out.onode && el.Line == nil &&
+//@               len(el.Options) == len(old(dr.step(choice)).out.ogroup.Options) && dr.optionsAre(el.Options, old(dr.step(choice)).out))
+//@   ensures "refines-Run/state": old(dr.step(choice)).out != OError ==> dr.stateIs(old(dr.step(choice))) && World == old(dr.step(choice)).w
+//@   ensures "refines-Run/error-state": old(dr.step(choice)).out == OError ==>
+//@               dr.K() == old(dr.step(choice)).k && dr.waiting() == old(dr.step(choice)).wait && dr.currentNode == old(dr.step(choice)).node &&
+//@               dom(dr.visitedNodes) == old(dr.step(choice)).vdom && mapval(dr.visitedNodes) == old(dr.step(choice)).vval && dr.commandErrChan == nil
+//@   ensures "end-absorbing": el == nil && err == nil ==> len(dr.K()) == 0 && dr.waiting() == nil && dr.commandErrChan == nil
+//@   ensures "buffer-same-or-fresh": dr.stackBufOK()
+//@   ghostlocal gsrcs seq[string]
+//@   ghostlocal gdis seq[bool]
+//@   ghost after call append#0 {
+//@       gsrcs = snoc(gsrcs, markupResult.src)
+//@       gdis = snoc(gdis, disabled)
+//@   }
+//@   loop 0: invariant fresh(options) && dr.wf() && dr.stackBufOK() && 0 <= rangeindex + 1 && len(options) == rangeindex + 1 &&
+//@           len(gsrcs) == len(options) && len(gdis) == len(options) && len(options) <= len(nextStatement.ShortcutOptionStatement.Options) &&
+//@           dr.K() == dr.kc(choice)[1:] && dr.lastStatement == nil && dr.commandErrChan == nil &&
+//@           old(dr.step(choice)) == dr.optsRes(nextStatement.ShortcutOptionStatement,
+//@               RenderOptsFrom(nextStatement.ShortcutOptionStatement, rangeindex + 1, gsrcs, gdis, World), dr.kc(choice))
+//@   loop 0: invariant "options-so-far": forall i int :: {options[i]} 0 <= i && i < len(options) ==>
+//@           options[i].Disabled == gdis[i] && options[i].Line != nil && options[i].Line.Tags == nextStatement.ShortcutOptionStatement.Options[i].LineStatement.Tags &&
+//@           (exists pr *markup.ParseResult :: {pr.src} pr != nil && pr.src == gsrcs[i] && options[i].Line.ParseResult == *pr)
+//@   ghost before call Push#0 { arg1.below = dr.K() }
+//@   ghost before call Size#0 {
+//@       assert "stack-after-choice": dr.wfStack()
+//@       assert "queues-after-choice": dr.wfQueues()
+//@       assert "k-after-choice": dr.K() == dr.kc(choice)
+//@       assert "step-is-run": old(dr.step(choice)) == Run(dr.dialogue, dr.kc(choice), dr.currentNode, dom(dr.visitedNodes), mapval(dr.visitedNodes), World)
+//@       assert "resume-0": old(dr.step(choice)) == dr.step(choice)
+//@   }
+//@   ghost after call Peek#0 {
+//@       assert "top": callres == dr.stk()[len(dr.stk()) - 1]
+//@       assert "top-wf": callres != nil && wfStmts(callres.statements) && 0 <= callres.pointer && callres.pointer <= len(callres.statements)
+//@   }
+//@   ghost after call nextStatement#0 {
+//@       assert "stmt-wf": callres1 ==> wfStmt(callres0)
+//@       assert "fetched": callres1 ==> len(dr.kc(choice)) > 0 && dr.kc(choice)[0] == callres0 && dr.K() == dr.kc(choice)[1:]
+//@       assert "exhausted": !callres1 ==> dr.K() == dr.kc(choice)
+//@   }
+//@   ghost before call Next#0 { assert "resume-1": old(dr.step(choice)) == dr.step(choice) }
+//@   ghost before call Next#1 { assert "resume-2": old(dr.step(choice)) == dr.step(choice) }
+//@   ghost before call Next#2 { assert "resume-3": old(dr.step(choice)) == dr.step(choice) }
+//@   ghost before call Next#3 { assert "resume-4": old(dr.step(choice)) == dr.step(choice) }
+//@   ghost before call Next#4 { assert "resume-5": old(dr.step(choice)) == dr.step(choice) }
+//@   ghost before call Next#5 { assert "resume-6": old(dr.step(choice)) == dr.step(choice) }
+//@   ghost before call Next#6 { assert "resume-7": old(dr.step(choice)) == dr.step(choice) }
+//
+//@ func (dr *DialogueRunner) isWaitingForChoice() (res bool)
+//@   requires dr != nil
+//@   ensures "waiting": res == (dr.waiting() != nil)
+//
+// ---- runner.go: snapshots (C07) ---------------------------------------------------------------------------------
+//
+//@ func cloneMap(m map[K]V) (clone map[K]V)
+//@   ensures "fresh-copy": clone != nil && fresh(clone) &&
+//@           (forall k K :: {k in clone} (k in clone) == (k in m)) &&
+//@           (forall k K :: {mapval(clone)[k]} k in m ==> mapval(clone)[k] == mapval(m)[k])
+//@   loop 0: invariant clone != nil && fresh(clone) &&
+//@           (forall k K :: {k in clone} (k in clone) == (k in seen)) &&
+//@           (forall k K :: {k in seen} k in seen ==> k in m) &&
+//@           (forall k K :: {mapval(clone)[k]} k in seen ==> mapval(clone)[k] == mapval(m)[k])
+//
+//@ func (dr *DialogueRunner) Snapshot() (s *Snapshot)
+//@   requires dr != nil
+//@   ensures "self-contained": s != nil && fresh(s) && s.VisitedNodes != nil && fresh(s.VisitedNodes) && s.Variables != nil && fresh(s.Variables)
+//@   ensures "content": s.CurrentNode == dr.currentNode &&
+//@           (forall k string :: {k in s.VisitedNodes} (k in s.VisitedNodes) == (k in dr.visitedNodes)) &&
+//@           (forall k string :: {mapval(s.VisitedNodes)[k]} k in dr.visitedNodes ==> mapval(s.VisitedNodes)[k] == mapval(dr.visitedNodes)[k]) &&
+//@           (forall k string :: {k in s.Variables} (k in s.Variables) == (k in dr.variableSnapshot)) &&
+//@           (forall k string :: {mapval(s.Variables)[k]} k in dr.variableSnapshot ==> mapval(s.Variables)[k] == mapval(dr.variableSnapshot)[k])
+//
+//@ pred snapOK(s *Snapshot) {
+//@     s != nil && (forall k string :: {mapval(s.Variables)[k]} k in s.Variables ==> absvalOf(mapval(s.Variables)[k]) != VNone) }
+//
+//@ func (dr *DialogueRunner) RestoreAt(snapshot *Snapshot) (err error)
+//@   requires dr.hostOK() && dr.dialogue != nil && snapOK(snapshot)
+//@   modifies dr.visitedNodes, dr.variableSnapshot, dr.lastStatement, dr.commandErrChan, dr.currentNode,
+//@            *(&dr.statementsToRun), elems(*(&dr.statementsToRun)), World
+//@   ensures "unknown-node-changes-nothing": (err == nil) == (firstNode(dr.dialogue, snapshot.CurrentNode) >= 0) &&
+//@           (err != nil ==> World == old(World) && dr.visitedNodes == old(dr.visitedNodes) && dr.variableSnapshot == old(dr.variableSnapshot) &&
+//@               dr.lastStatement == old(dr.lastStatement) && dr.commandErrChan == old(dr.commandErrChan) && dr.currentNode == old(dr.currentNode) &&
+//@               *(&dr.statementsToRun) == old(*(&dr.statementsToRun)) && dr.stk() == old(dr.stk()))
+//@   ensures "resumes-from-node-entry": err == nil ==>
+//@               dr.K() == seq(dr.dialogue.Nodes[firstNode(dr.dialogue, snapshot.CurrentNode)].Statements) &&
+//@               dr.currentNode == dr.dialogue.Nodes[firstNode(dr.dialogue, snapshot.CurrentNode)].Headers["title"] &&
+//@               dr.waiting() == nil && dr.commandErrChan == nil && dr.wfStack()
+//@   ensures "no-alias-visited": err == nil ==> dr.visitedNodes != nil && fresh(dr.visitedNodes) &&
+//@               (forall k string :: {k in dr.visitedNodes} (k in dr.visitedNodes) == (k in snapshot.VisitedNodes)) &&
+//@               (forall k string :: {mapval(dr.visitedNodes)[k]} k in snapshot.VisitedNodes ==> mapval(dr.visitedNodes)[k] == mapval(snapshot.VisitedNodes)[k])
+//@   ensures "resnapshot-equal": err == nil ==> dr.variableSnapshot != nil && fresh(dr.variableSnapshot) &&
+//@               (forall k string :: {k in dr.variableSnapshot} (k in dr.variableSnapshot) == (k in snapshot.Variables)) &&
+//@               (forall k string :: {mapval(dr.variableSnapshot)[k]} k in snapshot.Variables ==> mapval(dr.variableSnapshot)[k] == mapval(snapshot.Variables)[k])
+//@   ensures "variables-restored": err == nil ==>
+//@               (forall n string :: {store(World, n)} store(World, n) == (n in snapshot.Variables ? absvalOf(mapval(snapshot.Variables)[n]) : VNone))
+//@   loop 0: invariant forall n string :: {store(World, n)} store(World, n) == (n in seen ? absvalOf(mapval(snapshot.Variables)[n]) : VNone)
+//@   loop 0: invariant forall n string :: {n in seen} n in seen ==> n in snapshot.Variables
+//
+// ---- base_functions.go: conversions (C19) and random built-ins (C09) -----------------------------------------
+//
+//@ func toString(args []*variable.Value) (v *variable.Value, err error)
+//@   float ieee
+//@   requires allWf(args)
+//@   carveout "D15": len(args) == 1 && isVNum(absval(args[0])) ==> fitsInt(absval(args[0]).n)
+//@   ensures "arity": (err == nil) == (len(args) == 1)
+//@   ensures "display-form": err == nil ==> absval(v) == VStr(display(absval(args[0])))
+//@   ensures "error-never-a-value": (err != nil ==> v == nil) && (err == nil ==> wfVal(v))
+//
+//@ func toBoolean(args []*variable.Value) (v *variable.Value, err error)
+//@   requires allWf(args)
+//@   ensures "identity-on-booleans": len(args) == 1 && isVBool(absval(args[0])) ==> err == nil && absval(v) == absval(args[0])
+//@   ensures "parses-strings": len(args) == 1 && isVStr(absval(args[0])) ==>
+//@               (err == nil) == parseBoolOK(absval(args[0]).s) && (err == nil ==> absval(v) == VBool(parseBoolVal(absval(args[0]).s)))
+//@   ensures "arity": len(args) != 1 ==> err != nil
+//@   ensures "error-never-a-value": (err != nil ==> v == nil) && (err == nil ==> wfVal(v))
+//
+//@ func toFloat(args []*variable.Value) (v *variable.Value, err error)
+//@   requires allWf(args)
+//@   ensures "identity-on-numbers": len(args) == 1 && isVNum(absval(args[0])) ==> err == nil && absval(v) == absval(args[0])
+//@   ensures "parses-strings": len(args) == 1 && isVStr(absval(args[0])) ==>
+//@               (err == nil) == parseFloatOK(absval(args[0]).s) && (err == nil ==> absval(v) == VNum(parseFloatVal(absval(args[0]).s)))
+//@   ensures "arity": len(args) != 1 ==> err != nil
+//@   ensures "error-never-a-value": (err != nil ==> v == nil) && (err == nil ==> wfVal(v))
+//
+//@ lemma boolOfStringOfBool(b bool)
+//@   ensures parseBoolOK(display(VBool(b))) && parseBoolVal(display(VBool(b))) == b
+//
+//@ lemma numberOfStringOfNumber(x float64)
+//@   float ieee
+//@   requires !isNaN(x) && !isInf(x) && fabs(x) < 4503599627370496.0
+//@   ensures parseFloatOK(display(VNum(x))) && feq(parseFloatVal(display(VNum(x))), x)
+//
+//@ closure dice$1(sides int) (res int)
+//@   requires "capture": *rng != nil && (*rng).source != nil
+//@   requires "at-least-one-side": sides >= 1
+//@   ensures  "in-range": 1 <= res && res <= sides
+//
+//@ closure randomRange$1(lowerBound int, upperBound int) (res int)
+//@   requires "capture": *rng != nil && (*rng).source != nil
+//@   requires "ordered": lowerBound <= upperBound && upperBound - lowerBound < 9223372036854775807
+//@   ensures  "in-range": lowerBound <= res && res <= upperBound
+//
+//@ closure random$1() (res float64)
+//@   requires "capture": *rng != nil && (*rng).source != nil
+//@   ensures  "unit-interval": !isNaN(res) && 0.0 <= res && res < 1.0
+//
+// ---- runner.go: construction (C01 start node, C05, C11 capture, C18 ownership) ----------------------------------
+//
+//@ func newCommandStorer() (res *commandStorer)
+//@   ensures res != nil && fresh(res) && res.commandsByID != nil && fresh(res.commandsByID)
+//
+// newFunctionStorer registers the built-ins through the reflection bridge (C16, bounded stand-in B-bridge)
+//@ func newFunctionStorer(rng *rng.RNG) (res *functionStorer)
+//@   trusted
+//@   requires rng != nil
+//@   ensures res != nil && fresh(res) && res.functionsByID != nil && fresh(res.functionsByID)
+//
+//@ func (storer *functionStorer) convertAndAddFunction(functionID string, function any) (err error)
+//@   trusted
+//@   requires storer != nil && storer.functionsByID != nil
+//@   modifies mapcontent(storer.functionsByID)
+//
+//@ func NewDialogueRunner(storer variable.Storer, rngSeed string, readers []io.Reader) (runner *DialogueRunner, err error)
+//@   ensures "runner-or-error": (err == nil) == (runner != nil)
+//@   ensures "owns-fresh": err == nil ==> fresh(runner) && fresh(runner.dialogue) && fresh(runner.visitedNodes) && fresh(runner.functionStorer) &&
+//@               fresh(runner.commandStorer) && fresh(*(&runner.statementsToRun)) && (dyntype(storer) == 0 ==> fresh(runner.variableStorer)) &&
+//@               (dyntype(storer) != 0 ==> runner.variableStorer == storer)
+//@   ensures "starts-at-first-node": err == nil ==> runner.hostOK() && runner.visitedNodes != nil && wfDialogue(runner.dialogue) && runner.wfStack() && runner.wfQueues() &&
+//@               len(runner.dialogue.Nodes) >= 1 &&
+//@               runner.K() == seq(runner.dialogue.Nodes[0].Statements) && runner.currentNode == runner.dialogue.Nodes[0].Headers["title"] &&
+//@               runner.waiting() == nil && runner.commandErrChan == nil && (forall n string :: {n in runner.visitedNodes} !(n in runner.visitedNodes))
+//
+// the wrappers registered with the runner are total: out-of-domain arguments are errors (C06), in-domain ones in range (C09)
+//@ closure checkedDice$1(sides int) (res int, err error)
+//@   arith checked
+//@   requires "capture": *rng != nil && (*rng).source != nil
+//@   ensures  "error-iff-no-side": (err == nil) == (sides >= 1)
+//@   ensures  "in-range": err == nil ==> 1 <= res && res <= sides
+//
+//@ closure checkedRandomRange$1(lowerBound int, upperBound int) (res int, err error)
+//@   arith wrap
+//@   requires "capture": *rng != nil && (*rng).source != nil
+//@   ensures  "error-iff-out-of-domain": (err == nil) == (lowerBound <= upperBound && upperBound - lowerBound < 9223372036854775807)
+//@   ensures  "in-range": err == nil ==> lowerBound <= res && res <= upperBound
